@@ -1,0 +1,59 @@
+//go:build verif
+
+package totp2fa
+
+// Contracts for /verif (contract-based deductive verification of the real
+// code). Comment-only: no code; visible only with the build tag "verif".
+//
+// The second factor presented in a validate request, from the statement (C02):
+// a recovery code that bcrypt-matches one of the account's own stored codes (and the
+// shrunken list was saved), or a TOTP code valid for the account's own secret.
+//@ spec recovery_ok(u, vals) :=
+//@        (emits Store.Save(?s) -> ?e :: e == nil && s == u && after Sess.Put("uid", _)) &&
+//@        (exists i int :: 0 <= i && i < str_split_len(RecoveryCodes(u), ",") &&
+//@            hash_ok(str_split(RecoveryCodes(u), ",")[i], val(vals, "GetRecoveryCode")))
+//@ spec factor_ok(u, vals) :=
+//@        ite(len(val(vals, "GetRecoveryCode")) != 0, recovery_ok(u, vals),
+//@            totp_ok(val(vals, "GetCode"), TOTPSecretKey(u)) && len(TOTPSecretKey(u)) != 0)
+//@
+//@ spec replay_ok(u, vals) := implements(u, "totp2fa.UserOneTime") ==>
+//@        (old(TOTPLastCode(u)) != val(vals, "GetCode") &&
+//@         (emits Store.Save(?s) -> ?e :: e == nil && s == u && TOTPLastCode(s) == val(vals, "GetCode") && after Sess.Put("uid", _)))
+//@
+//@ func (*TOTP).HijackAuth
+//@   property C01 C02
+//@   -- an account with a TOTP secret never gets past the hijack: the login is parked
+//@   ensures[C02] hijack_parks: (!handled && ctxuser(r) != nil && len(TOTPSecretKey(ctxuser(r))) != 0 && !panics) ==>
+//@       ((result.0 || result.1 != nil) && (emits Sess.Put(SessionTOTPPendingPID, ?p) :: p == PID(ctxuser(r))))
+//@   ensures[C02,C01] pending_is_context_user: each Sess.Put(?k, ?v) => k == SessionTOTPPendingPID && v == PID(ctxuser(r)) && !handled
+//@   ensures[C02] no_factor_no_effect: (ctxuser(r) != nil && len(TOTPSecretKey(ctxuser(r))) == 0) ==> (!emits Sess.Put(_, _) && !emits Redirect(_))
+//@
+//@ func (*TOTP).PostValidate
+//@   property C01 C02 C03 C04 C12 C13 C18
+//@   -- C01/C02/C13: the session is completed only for the logged-in user, or - when nobody is
+//@   -- logged in - for the account parked in totp_pending, and only with that account's own factor
+//@   ensures[C01,C02,C13] second_factor_guard: each Sess.Put("uid", ?v) =>
+//@       before Body.Read(PageTOTPValidate) -> (?vals, ?re) :: re == nil &&
+//@         ite(ctxuser(r) != nil,
+//@             v == PID(ctxuser(r)) && factor_ok(ctxuser(r), vals),
+//@             before Store.Load(?p) -> (?u, ?le) :: le == nil && v == PID(u) && factor_ok(u, vals) &&
+//@               (p == ite(ctxpid(r) != nil, asstring(ctxpid(r)), sess(r, "uid")) ||
+//@                (p == sess(r, SessionTOTPPendingPID) && sess_has(r, SessionTOTPPendingPID) &&
+//@                 (ite(ctxpid(r) != nil, asstring(ctxpid(r)), sess(r, "uid")) == "" ||
+//@                  (before Store.Load(_) -> (_, ?e0) :: e0 == ErrUserNotFound)))))
+//@   ensures[C01,C02] session_keys: (each Sess.Put(?k, ?v) => k == "uid" || (k == Session2FA && v == "totp")) &&
+//@       (each Sess.Put("uid", _) => after Sess.Put(Session2FA, "totp") && after Sess.Del("halfauth") && after Sess.Del(SessionTOTPPendingPID) && after Sess.Del(SessionTOTPSecret))
+//@   -- C03: the step that completes the login consults the lock/confirm veto
+//@   ensures[C03] login_veto: each Sess.Put("uid", ?v) =>
+//@       before Fire("Before", EventAuth, ?cu, _, _) -> (?hd, ?e) :: hd == false && e == nil && PID(cu) == v
+//@   -- C04: a wrong code is reported as an authentication failure of that account
+//@   ensures[C04] fail_reported: each Respond(_, _, ?data) => maphas(data, DataValidation) ==>
+//@       before Fire("After", EventAuthFail, ?cu, _, _) :: cu != nil
+//@   ensures[C04] correct_not_failure: each Fire(_, EventAuthFail, _, _, _) => !emits Sess.Put(_, _)
+//@   -- C12: with replay protection the last code is refused and the accepted one recorded first
+//@   ensures[C12] totp_replay: each Sess.Put("uid", ?v) =>
+//@       before Body.Read(PageTOTPValidate) -> (?vals, _) :: len(val(vals, "GetRecoveryCode")) == 0 ==>
+//@         ite(ctxuser(r) != nil, replay_ok(ctxuser(r), vals),
+//@             before Store.Load(_) -> (?u, ?le) :: le == nil && PID(u) == v && replay_ok(u, vals))
+//@   ensures[C18] no_panic: !panics
+//@   ensures[C18] save_error_outcome: each Store.Save(_) -> ?e => e != nil ==> (result == e && !emits Sess.Put(_, _))
